@@ -487,18 +487,42 @@ def _scenario(s, clients, w, sim, r, run, stats, wit):
                                       "handshake abandoned; CON token %s reported by %d NACKs"
                                       % (m["tok"], n))
             elif not lossy:
-                # NSTART holds a CON back while an earlier CON is unanswered; a NON may pass
-                # it (C08).  Order is therefore judged among the CONs and among the NONs.
+                # What was queued while the handshake ran is delivered in submission order
+                # (the delay queue is flushed front to back, a Confirmable that NSTART holds
+                # keeps everything behind it waiting).  A message submitted AFTER the session
+                # came up is a different matter: a NON goes out at once and may pass what is
+                # still held (C08), a CON joins the end of the queue.  So: total order among
+                # the queued ones, and order among all Confirmables.
                 typ = dict((m["tok"], m["type"]) for m in acc)
-                for cls in (0, 1):
-                    g = [t for t in got if typ.get(t) == cls]
-                    wnt = [t for t in want if typ.get(t) == cls]
+                if stream:
+                    queued = set(typ)      # reliable transports: no NSTART, one queue
+                else:
+                    te = None
+                    for e in log:
+                        if e["e"] == "wire" and e["from"] == S["addr"]:
+                            recs = dtls_records(bytes.fromhex(e["b"]))
+                            if recs and any(t_ == 23 for t_, _, _ in recs):
+                                te = e["t"]
+                                break
+                    queued = set(m["tok"] for m in acc if te is not None and m["t"] < te)
+                stats["queued_during_handshake"] = stats.get("queued_during_handshake", 0) + \
+                    len(queued)
+                for label, sel in (("queued", lambda t_: t_ in queued),
+                                   ("confirmable", lambda t_: typ.get(t_) == 0)):
+                    g = [t_ for t_ in got if sel(t_)]
+                    wnt = [t_ for t_ in want if sel(t_)]
                     if g != wnt:
                         kind = "order" if sorted(g) == sorted(wnt) else (
                             "duplicate" if len(g) > len(set(g)) else "missing")
-                        run.violation("queued-delivery-%s/%s" % (kind, s.proto), w1,
+                        run.violation("queued-delivery-%s/%s/%s" % (kind, s.proto, label), w1,
                                       "%s requests reached the server handler as %r, submitted "
-                                      "as %r" % ("CON" if cls == 0 else "NON", g, wnt))
+                                      "as %r" % (label, g, wnt))
+                g = sorted(t_ for t_ in got)
+                if g != sorted(want):
+                    kind = "duplicate" if len(got) > len(set(got)) else "missing"
+                    run.violation("queued-delivery-%s/%s/all" % (kind, s.proto), w1,
+                                  "requests reached the server handler as %r, submitted as %r"
+                                  % (got, want))
                 for m in acc:
                     n = sum(1 for e in rsps if e["tok"] == m["tok"])
                     k = sum(1 for e in nacks if e["tok"] == m["tok"])
